@@ -561,6 +561,44 @@ def _ds_case(args):
     return out
 
 
+def _large_case(args):
+    """Arrays far larger than any block size a hashing scheme might use,
+    equal except for their last (or middle, or first) elements."""
+    fname, = args
+    from dclab import cached
+    fn, raw = CacheDriver()._funcs()[fname]
+    cached.Cache.clear_cache()
+    out = []
+    n = 70001
+    rs = np.random.RandomState(4)
+    x0 = rs.uniform(0, 1, n)
+    y0 = rs.uniform(0, 1, n)
+    variants = [("base", slice(0, 0)), ("tail", slice(n - 50, n)),
+                ("middle", slice(n // 2, n // 2 + 50)),
+                ("head", slice(0, 50)), ("last-one", slice(n - 1, n))]
+    cnt = 0
+    for rounds in range(2):
+        for name, sl in variants:
+            x = x0.copy()
+            x[sl] = x[sl] * 0.5 + 0.25
+            a = (x, y0, 500) if fname == "downsample_grid" else (x, y0)
+            cnt += 1
+            got = fn(*a)
+            want = raw(*[v.copy() if isinstance(v, np.ndarray) else v
+                         for v in a])
+            if not _same(_as_list(got), _as_list(want)):
+                out.append(violation(
+                    "dclab.cached:Cache.__call__", "cached-differs-from-fresh",
+                    {"kind": "large", "func": fname},
+                    f"{fname} on {n} points, variant '{name}' (round "
+                    f"{rounds}): the memoised call differs from a fresh "
+                    f"evaluation", {"func": fname, "large": True}))
+                cached.Cache.clear_cache()
+                return cnt, out
+    cached.Cache.clear_cache()
+    return cnt, out
+
+
 def _long_case(args):
     """One long call sequence at the *default* capacity: more distinct
     argument sets than the cache holds, early ones revisited after their
@@ -646,6 +684,8 @@ def run(ctx):
     lres = par.pmap(_long_case, [(f,) for f in (
         "kde_gauss", "kde_histogram", "kde_multivariate",
         "downsample_grid")])
+    lres += par.pmap(_large_case, [(f,) for f in (
+        "kde_histogram", "downsample_grid")])
     cov["long_sequence_calls"] = sum(n for n, _ in lres)
     for _, vs in lres:
         viols.extend(vs)
@@ -668,6 +708,8 @@ def run(ctx):
 
 
 def replay(case, ctx):
+    if case.get("kind") == "large":
+        return _large_case((case["func"],))[1]
     if case.get("kind") == "long":
         return _long_case((case["func"],))[1]
     if case.get("kind") == "dataset":
